@@ -630,6 +630,154 @@ func genManyLive(c *hx.Ctx, n int) string {
 	return b.line()
 }
 
+// ---------------------------------------------------------------- round-3 classes
+
+// CONTRACT PANICS MUST NOT POISON THE CACHE: the documented assertion panics - Load with a nil loader (on a missing, a
+// fresh, an expired, a loading key), Load/Get2/Set with a nil key or a key of an unsupported type - are recovered by
+// the caller and FOLLOWED by ordinary traffic on the same key, on other keys of the same shard and on other shards.
+// The panicking call changes nothing; every later call returns and answers as usual.
+func genContract(c *hx.Ctx) string {
+	r := c.Rng
+	b := pickCfg(r)
+	shard := r.Intn(shardCount)
+	kMiss := sameShardKey(r, shard, 3)
+	kFresh := sameShardKey(r, shard, 4)
+	kStale := sameShardKey(r, shard, 5)
+	kLoading := sameShardKey(r, shard, 6)
+	kOther := fmt.Sprintf("i:%d", (shard+1)%shardCount+7*shardCount)
+	// state before the violations
+	b.add(0, "load %%c k=%s loader=dur:0,val:1", kStale) // completed at 0
+	t := b.En + int64(r.Intn(int(b.En))) - 1              // kStale is stale (age in [E,2E)) from now on
+	b.add(t-3, "load %%c k=%s loader=dur:0,val:2", kFresh)
+	b.add(t-2, "load %%c k=%s loader=dur:%d,val:3", kLoading, 3*b.En)
+	viol := []string{
+		fmt.Sprintf("load %%c k=%s loader=nil", kMiss),
+		fmt.Sprintf("load %%c k=%s loader=nil", kFresh),
+		fmt.Sprintf("load %%c k=%s loader=nil", kStale),
+		fmt.Sprintf("load %%c k=%s loader=nil", kLoading),
+		"load %c k=nil loader=dur:1,val:9",
+		"load %c k=nil loader=nil",
+		"get2 %c k=nil",
+		"set %c k=nil val:9",
+		"load %c k=f64:1.5 loader=dur:1,val:9",
+		"get2 %c k=f64:2.5",
+		"set %c k=f64:3.5 val:9",
+	}
+	n := 1 + r.Intn(4)
+	if r.Intn(3) == 0 { // always exercise the miss branch in a third of the scenarios
+		b.add(t, "%s", viol[0])
+		t += 1 + int64(r.Intn(3))
+	}
+	for i := 0; i < n; i++ {
+		b.add(t, "%s", viol[r.Intn(len(viol))])
+		t += int64(r.Intn(3)) // sometimes the same instant as the next call
+	}
+	// ordinary traffic afterwards: same keys, same shard, other shards
+	t++
+	keys := []string{kMiss, kFresh, kStale, kLoading, sameShardKey(r, shard, 8), kOther, keyPool[r.Intn(len(keyPool))]}
+	m := 3 + r.Intn(6)
+	for i := 0; i < m; i++ {
+		k := keys[r.Intn(len(keys))]
+		if i == 0 {
+			k = kMiss
+		}
+		switch r.Intn(4) {
+		case 0, 1:
+			cid := b.add(t, "load %%c k=%s loader=dur:%d,val:%d", k, []int64{0, 1, 1000, b.En / 2}[r.Intn(4)], 100+i)
+			b.fget(t+1+int64(r.Intn(int(b.En))), cid)
+		case 2:
+			b.add(t, "get2 %%c k=%s", k)
+		default:
+			b.add(t, "set %%c k=%s val:%d", k, 200+i)
+		}
+		t += 1 + int64(r.Intn(int(b.En/4)))
+		if r.Intn(5) == 0 {
+			b.add(t, "%s", viol[r.Intn(len(viol))])
+			t++
+		}
+	}
+	return b.line()
+}
+
+// calls exactly AT a sweep tick (tie with the sweep) on a key whose entry is rotted / stale / in flight at the tick,
+// immediately followed by more Loads and Get2 of the same key: the new load must be shared and awaited.
+func genTickTie(c *hx.Ctx) string {
+	r := c.Rng
+	b := pickCfg(r)
+	b.P = 1 + r.Intn(3)
+	tick := 4 * b.En * int64(1+r.Intn(2))
+	k := keyPool[r.Intn(len(keyPool))]
+	k2 := sameShardKey(r, r.Intn(shardCount), 2)
+	// an entry that is rotted (or stale) at the tick
+	age := []int64{2 * b.En, 3 * b.En, 2*b.En + 1, b.En + b.En/2, 4 * b.En}[r.Intn(5)]
+	u := tick - age
+	if u < 0 {
+		u = 0
+	}
+	if r.Intn(2) == 0 {
+		b.add(u, "set %%c k=%s val:1", k)
+	} else {
+		b.add(u, "load %%c k=%s loader=dur:0,val:1", k)
+	}
+	b.add(u+1, "set %%c k=%s val:2", k2)
+	val := 10
+	for _, dt := range []int64{0, 0, 1, 1, 2, int64(1 + r.Intn(1000))} {
+		if r.Intn(4) == 0 {
+			continue
+		}
+		kk := k
+		if r.Intn(5) == 0 {
+			kk = k2
+		}
+		switch r.Intn(3) {
+		case 0, 1:
+			cid := b.add(tick+dt, "load %%c k=%s loader=dur:%d,val:%d", kk, []int64{1000, b.En / 2, 5}[r.Intn(3)], val)
+			val++
+			b.fget(tick+dt+int64(r.Intn(2)), cid)
+		default:
+			b.add(tick+dt, "get2 %%c k=%s", kk)
+		}
+	}
+	b.add(tick+b.En, "get2 %%c k=%s", k)
+	return b.line()
+}
+
+// a key whose loader keeps failing: a chain of 5..9 consecutive error results, each refreshed by the first Load at its
+// own boundary u+Ee (and probed at u+Ee-1, u+2Ee-1, u+2Ee); the error expiry must apply unchanged to every one of them.
+func genErrorStreak(c *hx.Ctx) string {
+	r := c.Rng
+	b := pickCfg(r)
+	b.P = 1 + r.Intn(2)
+	if b.Ee < 1000 {
+		b.Ee = 1000
+	}
+	k := keyPool[r.Intn(len(keyPool))]
+	n := 5 + r.Intn(5)
+	t := int64(r.Intn(1000))
+	for i := 0; i < n; i++ {
+		d := []int64{0, 1, 100}[r.Intn(3)]
+		res := fmt.Sprintf("err:%d", i+1)
+		if i == n-1 && r.Intn(2) == 0 {
+			res = fmt.Sprintf("val:%d", i+1)
+		}
+		cid := b.add(t, "load %%c k=%s %s", k, loaderText(d, res))
+		u := t + d
+		if r.Intn(2) == 0 {
+			b.fget(u+1, cid)
+		}
+		switch r.Intn(4) {
+		case 0:
+			b.add(u+b.Ee-1, "get2 %%c k=%s", k)
+		case 1:
+			b.add(u+b.Ee-1, "load %%c k=%s loader=dur:1,val:77", k) // fresh: must not load
+		}
+		// the next refresh: at the boundary, inside the stale window, or after the result is gone
+		t = u + []int64{b.Ee, b.Ee, b.Ee + 1, 2*b.Ee - 1, 2 * b.Ee, 2*b.Ee + 5}[r.Intn(6)]
+	}
+	b.add(t+1, "get2 %%c k=%s", k)
+	return b.line()
+}
+
 func genPure(c *hx.Ctx, n int) {
 	r := c.Rng
 	for i := 0; i < n; i++ {
@@ -711,6 +859,9 @@ func gen(mode string) func(c *hx.Ctx) {
 				{w(600, 6000), func() string { return genLongLoad(c) }, "longload"},
 				{w(6, 40), func() string { return genManyRotted(c, 130+c.Rng.Intn(170)) }, "manyrotted"},
 				{w(6, 40), func() string { return genManyLive(c, 258+c.Rng.Intn(60)) }, "manylive"},
+				{w(150, 3000), func() string { return genContract(c) }, "contract"},
+				{w(400, 8000), func() string { return genTickTie(c) }, "ticktie"},
+				{w(60, 1000), func() string { return genErrorStreak(c) }, "errorstreak"},
 			}
 		case "C05":
 			genBoundary(c, emit)
@@ -722,6 +873,9 @@ func gen(mode string) func(c *hx.Ctx) {
 				{w(40, 150), func() string { return genManyRotted(c, 128+c.Rng.Intn(172)) }, "manyrotted"},
 				{w(0, 25), func() string { return genManyRotted(c, 300+c.Rng.Intn(700)) }, "manyrotted_big"},
 				{w(10, 40), func() string { return genManyLive(c, 258+c.Rng.Intn(60)) }, "manylive"},
+				{w(100, 2000), func() string { return genContract(c) }, "contract"},
+				{w(300, 8000), func() string { return genTickTie(c) }, "ticktie"},
+				{w(300, 6000), func() string { return genErrorStreak(c) }, "errorstreak"},
 			}
 		default: // C06
 			phases = []phase{
@@ -733,6 +887,9 @@ func gen(mode string) func(c *hx.Ctx) {
 				{w(30, 120), func() string { return genManyLive(c, 257+c.Rng.Intn(64)) }, "manylive"},
 				{w(0, 25), func() string { return genManyLive(c, 320+c.Rng.Intn(700)) }, "manylive_big"},
 				{w(10, 40), func() string { return genManyRotted(c, 130+c.Rng.Intn(170)) }, "manyrotted"},
+				{w(500, 10000), func() string { return genContract(c) }, "contract"},
+				{w(100, 3000), func() string { return genTickTie(c) }, "ticktie"},
+				{w(40, 1000), func() string { return genErrorStreak(c) }, "errorstreak"},
 			}
 		}
 		for _, ph := range phases {
